@@ -246,3 +246,31 @@ def r18d(model: Model, rr: RuleResult):
     ann = {f: norm(a) for f, a, _ in model.mod("config").cls("AxisPosition").fields}
     if ann.get("position") == "float":
         rr.ok("AxisPosition.position is a float")
+
+
+@RULES.rule("C18", "R18e", "a master UFO is saved exactly as the static build of that master would compile it (_write only serialises)", floor=2)
+def r18e(model: Model, rr: RuleResult):
+    fi = model.func("write_font", "_write")
+    muts = []
+    for st in walk_body(fi, nested=True):
+        if isinstance(st, (ast.Assign, ast.AugAssign, ast.AnnAssign)):
+            tgts = st.targets if isinstance(st, ast.Assign) else [st.target]
+            for t in tgts:
+                for x in ([t] if not isinstance(t, (ast.Tuple, ast.List)) else t.elts):
+                    if isinstance(x, (ast.Attribute, ast.Subscript)):
+                        muts.append(st)
+        if isinstance(st, ast.Call) and callee_tail(st) in ("round", "transform", "clear", "remove", "append", "extend", "pop", "insert", "setattr", "move", "scale", "reverse"):
+            muts.append(st)
+        if isinstance(st, (ast.For, ast.While)):
+            muts.append(st)
+    if muts:
+        rr.bad(fi, muts[0], f"`{short(muts[0], 80)}` in _write changes the font object on its way to disk: only master UFOs take the .ufo branch, so a master inside the variable "
+               f"font differs from the static build of the same master (e.g. Python round() is half-to-even, ufo2ft's otRound is half-up)",
+               construct=f"_write: {short(muts[0], 60)}")
+    else:
+        rr.ok("_write performs no assignment to attributes/items, no loop and no mutating call")
+    saves = [c for c in calls_in(fi) if callee_tail(c) == "save"]
+    if len(saves) == 2 and all(c.args and norm(c.args[0]) == fi.params[2] for c in saves):
+        rr.ok("both branches save to output_file")
+    else:
+        rr.bad(fi, fi.node, "_write no longer saves the ufo / ttfont to output_file in both branches", construct="_write: save calls")
